@@ -59,7 +59,19 @@ def run(ctx):
         raise vlib.Inconclusive("generator produced only %d schedules" % len(scheds))
     cp = ctx.path("scheds.ndjson")
     vlib.write_ndjson(cp, scheds)
-    tp, out = ctx.godriver("c03", "^TestC03$", cases=cp, timeout=1500)
+    try:
+        tp, out = ctx.godriver("c03", "^TestC03$", cases=cp, timeout=1500)
+    except vlib.Inconclusive as e:
+        # the SCION client evaluates responses in goroutines of its own: a panic there
+        # (its only panic site fires when t3 < t0, i.e. timestamps of different exchanges
+        # were combined) kills the driver process and cannot be recovered by the harness
+        msg = str(e)
+        if "panic: unexpected system clock behavior" in msg and "scion-time/core/client" in msg:
+            ctx.violation("C03 TNoPanic client crash", "the client panicked in ValidateResponseTimestamps while "
+                          "evaluating a response of a conformant server", {"output": msg[-3000:]})
+            ctx.cov.update(traces_validated_against_impl=0, samples=[msg[-400:]])
+            return
+        raise
     recs = vlib.read_ndjson(tp)
     acc = [x for x in recs if x["ev"] == "accept"]
     ctx.log("driver: %d schedules, %d records, %d accepted measurements (%d interleaved)" %
